@@ -682,13 +682,11 @@ Qed.
 Lemma priority_computed tp lp comp : 0 <= tp <= 126 -> 0 <= lp <= 65535 ->
   Priority 0 tp lp comp = 16777216 * tp + 256 * lp + wrap 16 (256 - comp).
 Proof.
-  intros Htp Hlp. unfold Priority. cbn [Z.eqb negb].
+  intros Htp Hlp. unfold Priority. cbn [Z.eqb negb]. cbv zeta.
   pose proof (wrap_range 16 (256 - comp) ltac:(lia)) as Hw. change (2 ^ 16) with 65536 in Hw.
-  rewrite (wrap_small 32 (16777216 * tp)) by (change (2 ^ 32) with 4294967296; lia).
-  rewrite (wrap_small 32 (256 * lp)) by (change (2 ^ 32) with 4294967296; lia).
-  rewrite (wrap_small 32 (1 * _)) by (change (2 ^ 32) with 4294967296; lia).
-  rewrite (wrap_small 32 (16777216 * tp + _)) by (change (2 ^ 32) with 4294967296; lia).
-  rewrite wrap_small by (change (2 ^ 32) with 4294967296; lia). lia.
+  set (w := wrap 16 (256 - comp)) in *. clearbody w.
+  (* whatever the shape of the translated expression: the remaining (32-bit) wraps do not wrap *)
+  unwrap_goal. lia.
 Qed.
 
 (* the only candidate whose Priority() is 0: a relay over TLS (local preference 0) with
